@@ -290,8 +290,19 @@ class Gen:
         s = rand_spec(self.r, a["n"], [g for g in self.gset if g != "BARRIER"] or ["X"])
         # form: one application, or the SAME gate object applied twice (what uncomputation and
         # appending one circuit twice produce), optionally with a barrier between / before
-        form = self.r.choice(["once", "once", "twice", "twice_barrier_between", "barrier_then_twice", "twice_first", "thrice", "twice_two_barriers_between"])
-        self.add("iadd_gate", {"target": a["id"], "gate": s, "form": form}, [a["id"]])
+        form = self.r.choice(["once", "once", "twice", "twice_barrier_between", "barrier_then_twice", "twice_first", "thrice", "twice_two_barriers_between", "shared_wires", "shared_wires"])
+        arg = {"target": a["id"], "gate": s, "form": form}
+        if form == "shared_wires":
+            # ONE wires list object handed to two different gates (or one gate with two params):
+            # what a caller does who builds a circuit from tuples with a reused variable
+            arity = len(s["w"])
+            same = {1: ["X", "Y", "Z", "H", "S", "T", "P"], 2: ["CX", "CZ", "CP", "SWAP"], 3: ["CCX", "MCX", "MCZ"]}.get(arity, ["MCX", "MCZ"])
+            g2 = self.r.choice([g for g in same if g != s["g"]] or same)
+            s2 = {"g": g2, "w": list(s["w"])}
+            if g2 in PARAM:
+                s2["p"] = self.r.choice(ANGLES)
+            arg["gate2"] = s2
+        self.add("iadd_gate", arg, [a["id"]])
         return True
 
     def b_repeat(self):
@@ -579,9 +590,15 @@ def run_segment(plan, ctx, detail=False, table=None):
 
                 if form == "barrier_then_twice":
                     t.barrier()
-                t += (go, list(s["w"]), s.get("p"))
+                wires_obj = list(s["w"])
+                t += (go, wires_obj, s.get("p"))
                 new_model = apply(model[tgt], spec_matrix(s), s["w"], objs[tgt].num_qubits)
-                if form != "once":
+                if form == "shared_wires":
+                    s2 = a["gate2"]
+                    t += (gate_object(s2), wires_obj, s2.get("p"))
+                    new_model = apply(new_model, spec_matrix(s2), s2["w"], objs[tgt].num_qubits)
+                    probe("two_gates_sharing_one_wires_list")
+                elif form != "once":
                     if form == "twice_barrier_between":
                         t.barrier()
                     if form == "twice_two_barriers_between":
